@@ -2,6 +2,7 @@ package main
 
 import (
 	"berty.tech/go-ipfs-log/entry"
+	"berty.tech/go-orbit-db/stores/basestore"
 	"context"
 	"fmt"
 	cid "github.com/ipfs/go-cid"
@@ -29,6 +30,9 @@ type LifecycleInput struct {
 type lcRun struct {
 	blockedFetch           bool // replication positions are realised as a fetch that cannot complete (provider cut off)
 	sharedOpts             bool // one CreateDBOptions value reused for the sibling and the main database
+	snapLoad               bool // the load in flight is a LoadFromSnapshot that waits for the block of a saved head
+	snapGone               cid.Cid
+	snapGoneData           []byte
 	in                     *LifecycleInput
 	res                    *Result
 	bid                    string
@@ -240,6 +244,24 @@ func (r *lcRun) position(w, rp, l int) {
 			}
 		}
 	}
+	if l > 1 && r.snapLoad {
+		// the store has saved a snapshot; the block of the head it names is taken away, and LoadFromSnapshot waits for it
+		if _, err := basestore.SaveSnapshot(ctx, r.main.S); err != nil {
+			r.res.note("%s: SaveSnapshot: %v", r.bid, err)
+			r.snapLoad = false
+		} else if hs := r.main.S.OpLog().Heads().Slice(); len(hs) > 0 {
+			for _, peer := range []*sim.Peer{r.inst.P, r.rem.P} {
+				if data, ok := peer.DropBlock(hs[0].GetHash()); ok {
+					r.snapGone, r.snapGoneData = hs[0].GetHash(), data
+				}
+			}
+			r.loadDone = make(chan error, 1)
+			go func() { r.loadDone <- r.main.S.LoadFromSnapshot(ctx) }()
+			time.Sleep(50 * time.Millisecond)
+			r.res.Stats["snapshot_loads_waiting_for_a_block"]++
+			return
+		}
+	}
 	if l > 1 {
 		h.ParkAt("load.head.begin", r.mine(0))
 		r.loadDone = make(chan error, 1)
@@ -252,6 +274,8 @@ func (r *lcRun) position(w, rp, l int) {
 
 func (r *lcRun) run(b Behaviour, idx int) {
 	r.sharedOpts = idx%2 == 1
+	r.snapLoad = idx%5 == 3
+	r.snapGone, r.snapGoneData = cid.Undef, nil
 	r.blockedFetch = idx%3 == 2
 	if err := r.setup(fmt.Sprintf("lc%d", idx)); err != nil {
 		r.res.Inconclusive = append(r.res.Inconclusive, b.ID+": setup: "+err.Error())
@@ -287,7 +311,9 @@ func (r *lcRun) run(b Behaviour, idx int) {
 	// (as if its provider had left): the load waits for it, and the close must end that wait
 	var gone cid.Cid
 	var goneData []byte
-	if l == 3 || (l == 2 && idx%2 == 0) {
+	if r.snapGone.Defined() {
+		gone, goneData = r.snapGone, r.snapGoneData
+	} else if l == 3 || (l == 2 && idx%2 == 0) {
 		if p := r.parkedAt("load.head.begin", 0, 100*time.Millisecond); p != nil && len(p.Args) > 1 {
 			if he, ok := p.Args[1].(ipfslog.Entry); ok && he != nil {
 				for _, peer := range []*sim.Peer{r.inst.P, r.rem.P} {
